@@ -138,6 +138,17 @@ def corpus_cases(weakly):
     cs.append(make_case("corp-dupcount", 3, [(1, V(0), T), (2, V(0), T), (3, V(1), T)], [(1, V(0), alt2), (2, V(1), alt2), (3, V(0), T)], weakly))
     cs.append(make_case("corp-dupcount2", 4, [(1, V(1), V(0)), (2, V(2), V(1)), (3, V(2), V(1)), (4, V(3), V(1)), (5, Not(V(2)), V(0))],
                         [(1, V(3), And(V(1), Or(And(V(2), Not(V(3))), And(Not(V(2)), V(3))))), (2, V(2), And(V(1), Or(And(V(2), Not(V(3))), And(Not(V(2)), V(3)))))], weakly))
+    # query histories on one manager: an earlier query makes the optimiser allocate helper ids, a later one introduces a variable
+    # the pool has not seen (an atom no conditional mentions) - pool-id recycling / second-pool seeds
+    P1, P2, P3, P4, C_ = V(0), V(1), V(2), V(3), V(4)
+    cs.append(make_case("corp-poolhist", 5, [(1, P1, T), (2, P2, T), (3, P3, T), (4, P4, T)],
+                        [(1, C_, Not(P1)), (2, Or(C_, P4), Or(Not(P1), And(And(Not(P2), Not(P3)), Not(P4)))), (3, C_, Not(P2))], weakly))
+    a6, b6, c6, d6, g6, e6 = [V(i) for i in range(6)]
+    w1_ = And(And(Not(b6), Not(c6)), And(Not(d6), g6))
+    w2_ = And(And(Not(b6), c6), And(d6, Not(g6)))
+    w3_ = And(And(b6, c6), And(Not(d6), Not(g6)))
+    cs.append(make_case("corp-poolhist2", 6, [(1, And(And(b6, c6), d6), a6), (2, g6, a6)],
+                        [(1, b6, a6), (2, Not(b6), And(And(e6, a6), Or(Or(w1_, w2_), w3_))), (3, g6, And(a6, e6))], weakly))
     # redundant specialisation whose impact may be 0 (c-inference cross-pruning seed)
     cs.append(make_case("corp-redundant", 3, [(1, V(1), V(0)), (2, V(1), And(V(0), V(2)))], [(1, Not(V(2)), And(V(0), Not(V(1)))), (2, V(2), And(V(0), Not(V(1)))), (3, V(1), V(0))], weakly))
     # unfalsifiable conditional
